@@ -86,6 +86,63 @@ def history(job):
     return out
 
 
+def container_history(job):
+    """(version, 'message'|'group', name, ops) with ops = ('addseg', NAME) | ('add', NAME) | ('set', attr, text): a Message / Group filled through
+    the API with segments of its structure and segments foreign to it, under both levels"""
+    from hl7apy.core import Message, Group, Segment
+    v, kind, name, ops = job
+    out = []
+    for strict in (True, False):
+        try:
+            c = (Message if kind == 'message' else Group)(name, version=v, validation_level=vlib.level(strict))
+        except Exception as e:  # noqa
+            out.append(('exc', -1, vlib.exc_name(e)))
+            continue
+        failed = None
+        for i, op in enumerate(ops):
+            try:
+                if op[0] == 'addseg':
+                    c.add_segment(op[1])
+                elif op[0] == 'add':
+                    c.add(Segment(op[1], version=v, validation_level=vlib.level(strict)))
+                elif op[0] == 'set':
+                    setattr(c, op[1], op[2])
+            except Exception as e:  # noqa
+                failed = (i, vlib.exc_name(e))
+                break
+        if failed:
+            out.append(('exc', failed[0], failed[1]))
+            continue
+        try:
+            out.append(('ok', c.to_er7(), report_of(c)))
+        except Exception as e:  # noqa
+            out.append(('obsexc', -1, vlib.exc_name(e)))
+    return out
+
+
+def container_jobs(rng, v, n, ex):
+    import hl7apy
+    lib = hl7apy.load_library(v)
+    segs = sorted(k for k in lib.SEGMENTS if k not in ex.get(v, []) and k not in ('MSH', 'ANYHL7SEGMENT') and len(k) == 3)
+    conts = [('group', g) for g in sorted(lib.GROUPS)] + [('message', m) for m in sorted(lib.MESSAGES) if m == m.upper()]
+    jobs = []
+    for kind, name in rng.sample(conts, min(n, len(conts))):
+        ref = (lib.GROUPS if kind == 'group' else lib.MESSAGES)[name]
+        if not (gen.is_seq(ref) and len(ref) >= 2 and gen.is_seq(ref[1])):
+            continue
+        own = [r[0] for r in ref[1] if gen.is_seq(r) and len(r) == 4 and r[3] == 'SEG' and r[0] in segs]
+        foreign = [x for x in segs if x not in [r[0] for r in ref[1] if gen.is_seq(r) and len(r) == 4]]
+        if not foreign:
+            continue
+        ops = []
+        for _ in range(rng.randrange(1, 4)):
+            nm = rng.choice(own) if own and rng.random() < .5 else rng.choice(foreign)
+            k = rng.random()
+            ops.append(('addseg', nm) if k < .4 else ('add', nm) if k < .7 else ('set', nm.lower(), nm + '|1'))
+        jobs.append((v, kind, name, ops))
+    return jobs
+
+
 def open_ended(lib, seg):
     ref = lib.SEGMENTS.get(seg)
     try:
@@ -219,6 +276,27 @@ def run(tier, seed):
         if judge(chk, 'history', rep, r, open_ended(hl7apy.load_library(v), seg), tk):
             hist_ok += 1
             chk.nontrivial.add((v, seg, json.dumps(ops)))
+    # containers (messages, groups) filled through the API with own and foreign segments
+    cj = []
+    for v in VERSIONS:
+        cj += container_jobs(rng, v, 12 if tier == 'quick' else 150, ex)
+    cont_ok = 0
+    for (v, kind, name, ops), r in zip(cj, vlib.pmap(container_history, cj)):
+        chk.evals += 1
+        rep = {'api': '%s(name, version, level); add_segment / add(Segment) / assignment; to_er7; validate - under both levels' % kind.capitalize(), 'version': v,
+               'container': kind, 'name': name, 'cops': ops}
+        names = [o[1].upper() for o in ops]
+        tk = ['T:%s:%s' % (v, n) for n in names if n in ex.get(v, [])] or None
+        try:
+            from props.c08 import struct_info
+            lib_ = hl7apy.load_library(v)
+            dup = struct_info(lib_, (lib_.GROUPS if kind == 'group' else lib_.MESSAGES)[name])[2]
+        except Exception:  # noqa
+            dup = False
+        if judge(chk, 'container-history', rep, r, False, tk, dup):
+            cont_ok += 1
+            chk.nontrivial.add((v, name, json.dumps(ops)))
+    chk.dist['container_histories'] = {'cases': len(cj), 'strict_accepted': cont_ok}
     chk.dist.update({'segments': len(sj), 'messages': len(mj), 'histories': len(hj), 'strict_accepted_texts': strict_ok, 'strict_accepted_histories': hist_ok})
     chk.rule = ('in-structure segments of every version in three flavours (conforming, canonical-random, wild with invalid / over-long leaves and overflow), conforming message '
                 'instances, and random histories of set / add_field+value / delete on a fresh segment; each run under STRICT and under TOLERANT side by side. Non-trivial = '
@@ -232,7 +310,9 @@ def replay(path):
     d = json.load(open(path))
     r = d['replay']
     print(json.dumps(d['what'], indent=1))
-    if 'ops' in r:
+    if 'cops' in r:
+        print(container_history((r['version'], r['container'], r['name'], [tuple(o) for o in r['cops']])))
+    elif 'ops' in r:
         print(history((r['version'], r['segment'], [tuple(o) for o in r['ops']])))
     elif 'version' in r:
         print(both_seg((r['version'], r['text'])))
